@@ -2,7 +2,7 @@
   Helper for C09 (delivery independence): how many warm-up (`init`) bytes a hasher still wants.
 -/
 import Bita.Model.Chunker
-namespace Bita.Proofs
+namespace Bita.Proofs.CS
 open Bita
 
 /-- Number of `init` bytes a hasher still wants. -/
@@ -46,4 +46,4 @@ theorem initDone_input (g : Hasher) (b : UInt8) : (g.input b).initDone = g.initD
   have h2 := need_eq_zero (g.input b)
   cases h : g.initDone <;> cases h' : (g.input b).initDone <;> simp_all
 
-end Bita.Proofs
+end Bita.Proofs.CS
